@@ -254,6 +254,11 @@ def run_singular(key):
                 M_[f] = np.outer(v, v.conj()) if np.iscomplexobj(M_) else np.outer(v.real, v.real)
             elif p == 2:
                 M_[f] = 0
+    rt_reg = 1e-9
+    if key.get('single'):
+        # single-precision PSD matrices
+        X, N, Pxx, Pnn = (m.astype(np.complex64 if np.iscomplexobj(m) else np.float32) for m in (X, N, Pxx, Pnn))
+        rt_reg = 1e-3
     X.setflags(write=False)
     N.setflags(write=False)
     try:
@@ -274,7 +279,7 @@ def run_singular(key):
         return viol(f'{fn}: non-finite vector for pattern {pattern} ({which})')
     for f, p in enumerate(pattern):
         if p == 0:
-            bad = tol.mismatch(got[f], reg[f], 1e-9, what=f'{fn}: regular bin {f} affected by singular neighbours {pattern}')
+            bad = tol.mismatch(got[f], reg[f], rt_reg, what=f'{fn}: regular bin {f} affected by singular neighbours {pattern}')
             if bad:
                 return viol(bad)
     return ok(outcome=tol.digest(np.where(np.isfinite(got), got, 0)))
@@ -336,9 +341,11 @@ def subchecks(tier, seed):
                                 for real_noise in (False, True):
                                     if real_noise and (D == 3 or mu == 0.5):
                                         continue
-                                    yield (pattern, which, D, fn, mu, rd, real_noise, seed)
+                                    yield (pattern, which, D, fn, mu, rd, real_noise, False, seed)
+                                    if not real_noise and D == 2 and mu in (None, 1.0) and 1 not in pattern:
+                                        yield (pattern, which, D, fn, mu, rd, real_noise, True, seed)
     subs.append(Sub('singular_bins',
-                    ('pattern', 'which', 'D', 'fn', 'mu', 'rank_deficient_noise', 'real_noise', 'seed'),
+                    ('pattern', 'which', 'D', 'fn', 'mu', 'rank_deficient_noise', 'real_noise', 'single', 'seed'),
                     sing_cases, run_singular,
                     bound=dict(patterns='all {regular, rank-1, zero}^4')))
     return subs
